@@ -1,11 +1,18 @@
 ---------------------------- MODULE ThreePhaseMC ----------------------------
-(* Exhaustive exploration: every history of at most MaxT registrations (any phase,
-   kinds MCKinds), MaxR removals, MaxF firings, with the Deferreds of a firing fired
-   in every order. *)
+(* Exhaustive exploration: every history of at most MaxT registrations from outside (any
+   phase, kinds MCKinds), MaxR removals, MaxF firings, with the Deferreds of a firing fired
+   in every order.  KindSet = "simple": triggers that leave the event alone (plain, defer);
+   "reent": also triggers that, while running, register a plain trigger for each phase or
+   remove trigger h (h in 1..MaxT+1: earlier, later, themselves, not yet existing). *)
 EXTENDS ThreePhase, TLC
-CONSTANTS MaxT, MaxR, MaxF, MCKinds
+CONSTANTS MaxT, MaxR, MaxF, KindSet
 VARIABLES nR, nF
 mcvars == <<vars, nR, nF>>
+
+Act(op, ph, ret, h) == [op |-> op, ph |-> ph, ret |-> ret, h |-> h, more |-> <<>>]
+Scripted == {[ret |-> "plain", acts |-> <<Act("add", ph, "plain", 0)>>] : ph \in Phases}
+            \cup {[ret |-> "plain", acts |-> <<Act("rm", "-", "-", h)>>] : h \in 1..(MaxT + 1)}
+MCKinds == IF KindSet = "simple" THEN {K("plain"), K("defer")} ELSE {K("plain"), K("defer")} \cup Scripted
 
 Init == InitWith([api |-> "raw"]) /\ nR = 0 /\ nF = 0
 
@@ -20,9 +27,14 @@ Spec == Init /\ [][MCNext]_mcvars
 
 \* `last` is an observation of the step, not state: keep of it only what the invariants read
 View == <<before, during, after, kind, phase, nT, state, pend, loose, ran, cur, removed, nR, nF,
-          IF last.e \in {"fire", "fired"} THEN <<last.e, last.fin>> ELSE <<"-", FALSE>> >>
+          IF last.e \in {"fire", "fired"} THEN <<last.e, last.fin, last.late>> ELSE <<"-", FALSE, {}>> >>
 
 (* vacuity guards: the interesting situations are reachable *)
 ReachWaitingTwo  == ~(Cardinality(pend) >= 2 /\ during # <<>> /\ after # <<>>)
-ReachAllPhases   == ~(\E i, j, k \in 1..Len(cur) : phase[cur[i]] = "before" /\ phase[cur[j]] = "during" /\ phase[cur[k]] = "after")
+\* a trigger registered by a running trigger of the same phase ran after an earlier-registered pending one
+ReachSamePhaseAdd == ~(last.e = "fire" /\ \E i \in 1..Len(last.sub) : last.sub[i].op = "add"
+                          /\ phase[last.sub[i].x] = phase[last.sub[i].by] /\ last.sub[i].x \in Range(last.ran)
+                          /\ \E t \in Range(last.ran) : t > last.sub[i].by /\ t < last.sub[i].x /\ phase[t] = phase[last.sub[i].by])
+ReachLate        == ~(last.e = "fire" /\ last.fin /\ last.late # {} /\ during # <<>>)
+ReachRmPending   == ~(last.e = "fire" /\ \E i \in 1..Len(last.sub) : last.sub[i].op = "rm" /\ last.sub[i].res = "ok")
 =============================================================================
